@@ -24,13 +24,23 @@ rm "$dst"
 echo "### build+suite with change" >>"$log"
 (cd "$wt" && go build ./... && go test -vet=off -count=1 ./... ) >"$log.suite" 2>&1; suite=$?
 cat "$log.suite" >>"$log"
-# subscribe.TestGNMICoalescedDupCount races its own Subscribe goroutine against its first update and hangs
-# (10 min timeout) when the machine is loaded; if that is the only failure, the package is re-run (twice at most)
-if [ $suite -ne 0 ] && grep -q "TestGNMICoalescedDupCount" "$log.suite" && [ "$(grep -c '^FAIL\s' "$log.suite")" = "1" ] && grep -q '^FAIL\s.*gnmi/subscribe' "$log.suite"; then
-  for try in 1 2; do
-    echo "### re-run of ./subscribe/ (known load-sensitive test), try $try" >>"$log"
-    if (cd "$wt" && go test -vet=off -count=1 ./subscribe/ ) >>"$log" 2>&1; then suite=0; break; fi
-  done
+# Some tests of the repository are timing-sensitive and fail or hang when the machine is loaded
+# (subscribe.TestGNMICoalescedDupCount races its own Subscribe goroutine against its first update;
+# cli.TestSendQueryAndDisplay has 100 ms streaming deadlines).  A failing package is re-run on its own,
+# twice at most; a failure the change causes fails again.
+if [ $suite -ne 0 ] && grep -q '^ok\s' "$log.suite"; then
+  pkgs=$(grep '^FAIL\s' "$log.suite" | awk '{print $2}' | grep '/' | sed 's#github.com/openconfig/gnmi#.#' | sort -u)
+  if [ -n "$pkgs" ]; then
+    suite=0
+    for pk in $pkgs; do
+      okp=1
+      for try in 1 2; do
+        echo "### re-run of $pk (failed in the full run), try $try" >>"$log"
+        if (cd "$wt" && go test -vet=off -count=1 $pk/ ) >>"$log" 2>&1; then okp=0; break; fi
+      done
+      [ $okp -ne 0 ] && suite=1
+    done
+  fi
 fi
 rm -f "$log.suite"
 cp "$demo" "$dst"
